@@ -9,7 +9,8 @@
 (* Invariants (C13, C18): results agree with abs; unmarked nodes reachable from the head are strictly increasing = abs.      *)
 EXTENDS Naturals, Integers, Sequences, FiniteSets, TLC
 CONSTANTS Procs, Prog, MaxNodes,
-          NoValidate         \* TRUE: insert / erase skip validate() after locking (broken variant)
+          NoValidate,        \* TRUE: insert / erase skip validate() after locking (broken variant)
+          TailSkip           \* TRUE: seeded change C13b: in front of the tail validate() checks only that pPred is unmarked
 TailN == MaxNodes + 1
 (* --algorithm LazyList {
 variables
@@ -48,7 +49,7 @@ L0: while (i <= Len(Prog[self])) {
 I1:     call search(op[2]);
 I2:     await lock[pred] = 0; lock[pred] := self;                 \* scoped_position_lock: pPred, then pCur
 I3:     await lock[cur] = 0 \/ cur = pred; if (cur # pred) { lock[cur] := self; };
-I4:     if (NoValidate \/ (~Marked(pred) /\ ~Marked(cur) /\ next[pred].ptr = cur)) {     \* validate( pPred, pCur )
+I4:     if (NoValidate \/ (TailSkip /\ cur = TailN /\ ~Marked(pred)) \/ (~Marked(pred) /\ ~Marked(cur) /\ next[pred].ptr = cur)) {     \* validate( pPred, pCur )
           if (cur # TailN /\ key[cur] = op[2]) {
             ok := ok /\ (NoValidate \/ op[2] \in abs);            \* present under both locks
 I5:         lock[cur] := IF cur = pred THEN lock[cur] ELSE 0;
@@ -68,7 +69,7 @@ IB:       lock[pred] := 0; goto I1;
 E1:     call search(op[2]);
 E2:     await lock[pred] = 0; lock[pred] := self;
 E3:     await lock[cur] = 0 \/ cur = pred; if (cur # pred) { lock[cur] := self; };
-E4:     if (NoValidate \/ (~Marked(pred) /\ ~Marked(cur) /\ next[pred].ptr = cur)) {
+E4:     if (NoValidate \/ (TailSkip /\ cur = TailN /\ ~Marked(pred)) \/ (~Marked(pred) /\ ~Marked(cur) /\ next[pred].ptr = cur)) {
           if (cur # TailN /\ key[cur] = op[2]) {
             nxt := next[cur].ptr;                                 \* pCur->m_pNext.load
 E5:         next[cur] := [ptr |-> 0, mark |-> TRUE];              \* logical removal + back-link to the head: linearization point
@@ -217,7 +218,7 @@ I3(self) == /\ pc[self] = "I3"
                             stack, k, w, i, pred, cur, new, op, nxt >>
 
 I4(self) == /\ pc[self] = "I4"
-            /\ IF NoValidate \/ (~Marked(pred[self]) /\ ~Marked(cur[self]) /\ next[pred[self]].ptr = cur[self])
+            /\ IF NoValidate \/ (TailSkip /\ cur[self] = TailN /\ ~Marked(pred[self])) \/ (~Marked(pred[self]) /\ ~Marked(cur[self]) /\ next[pred[self]].ptr = cur[self])
                   THEN /\ IF cur[self] # TailN /\ key[cur[self]] = op[self][2]
                              THEN /\ ok' = (ok /\ (NoValidate \/ op[self][2] \in abs))
                                   /\ pc' = [pc EXCEPT ![self] = "I5"]
@@ -305,7 +306,7 @@ E3(self) == /\ pc[self] = "E3"
                             stack, k, w, i, pred, cur, new, op, nxt >>
 
 E4(self) == /\ pc[self] = "E4"
-            /\ IF NoValidate \/ (~Marked(pred[self]) /\ ~Marked(cur[self]) /\ next[pred[self]].ptr = cur[self])
+            /\ IF NoValidate \/ (TailSkip /\ cur[self] = TailN /\ ~Marked(pred[self])) \/ (~Marked(pred[self]) /\ ~Marked(cur[self]) /\ next[pred[self]].ptr = cur[self])
                   THEN /\ IF cur[self] # TailN /\ key[cur[self]] = op[self][2]
                              THEN /\ nxt' = [nxt EXCEPT ![self] = next[cur[self]].ptr]
                                   /\ pc' = [pc EXCEPT ![self] = "E5"]
